@@ -138,7 +138,7 @@ func fill(b []byte, v byte) {
 	}
 }
 
-const chunk = 4 << 20 // fresh memory is made accessible this many bytes at a time
+const chunk = 512 << 10 // fresh memory is made accessible this many bytes at a time
 
 // Malloc implements skiplist.MallocFn.
 func (a *Arena) Malloc(n int) unsafe.Pointer {
